@@ -22,7 +22,7 @@ theorem rotateStep_eq (locate : Seq → List Reg) (seq : Seq) :
     -- the guard on len(rr), whatever form it is written in, holds
     obtain ⟨g1, g2, g3, g4⟩ := guard_pos_forms (r :: rest).length
     have : (r :: rest).length ≠ 0 := by simp
-    simp only [gt_iff_lt, ge_iff_le, g1, g2, g3, g4, goAt_zero_cons, List.nil_append]
+    simp only [gt_iff_lt, ge_iff_le, g1, g2, g3, g4, clAt_zero_cons, List.nil_append]
     rw [if_pos this]
 
 example : Gen.rotateStep (fun _ => [.seg 2 4, .seg 1 3]) ⟨[], [1, 2, 3, 4, 5]⟩
